@@ -22,8 +22,9 @@
 
 import random
 from collections import deque
-from typing import TYPE_CHECKING
+from typing import TYPE_CHECKING, Iterable
 
+from .._dns import DNSRecord
 from .._utils.time import current_time_millis, millis_to_seconds
 from .answers import (
     MULTICAST_DELAY_RANDOM_INTERVAL,
@@ -85,6 +86,16 @@ class MulticastOutgoingQueue:
         else:
             loop.call_at(loop.time() + millis_to_seconds(random_delay), self.async_ready)
         self.queue.append(AnswerGroup(send_after, send_before, answers))
+
+    def async_remove_answers(self, records: Iterable[DNSRecord]) -> None:
+        """Remove records that must no longer be sent from the outgoing queue."""
+        remove = set(records)
+        for pending in self.queue:
+            pending.answers = {
+                answer: additionals - remove
+                for answer, additionals in pending.answers.items()
+                if answer not in remove
+            }
 
     def _remove_answers_from_queue(self, answers: _AnswerWithAdditionalsType) -> None:
         """Remove a set of answers from the outgoing queue."""
